@@ -67,6 +67,10 @@ Dom == /\ Ev("Dom") /\ UNCHANGED <<n, adj>>
           IN /\ ev.panicked = 0
              /\ ev.idom = [i \in 1..n |-> idom[i - 1]]
              /\ \A x \in Rr : SeqToSet(ev.df[x + 1]) \ care = df(x) \ care
+             \* Dom: the tree's child lists invert IDom (each child once), same numbering
+             /\ ev.tn = n /\ ev.tidom = ev.idom
+             /\ \A x \in Nodes : /\ SeqToSet(ev.kids[x + 1]) = {v \in Nodes : idom[v] = x}
+                                 /\ Cardinality(SeqToSet(ev.kids[x + 1])) = Len(ev.kids[x + 1])
 Reset == Ev("Reset") /\ n' = 0 /\ adj' = <<>>
 Next == Load \/ Orders \/ SCC \/ Dom \/ Reset
 Spec == Init /\ [][Next]_vars
